@@ -68,7 +68,7 @@ def install(ctx, numqi):
                       'pauli_F2_to_str disagrees with the reference (letters or phase)',
                       {'F2': row, 'got': [gs, complex(gsign)], 'expected': [ref, 1j**k]})
 
-    ctx.attach(P, 'pauli_F2_to_str', post=post_F2_to_str, immutable_args=True)
+    ctx.attach(P, 'pauli_F2_to_str', post=post_F2_to_str, immutable_args=True, normalize=True)
 
     def post_str_to_F2(c):
         if c.exc is not None:
@@ -91,7 +91,7 @@ def install(ctx, numqi):
             ctx.check(out.dtype == np.uint8 and np.array_equal(out, ref), 'str_to_F2/value',
                       'pauli_str_to_F2 disagrees with the reference', {'str': s, 'sign': complex(sg), 'got': out, 'expected': ref})
 
-    ctx.attach(P, 'pauli_str_to_F2', post=post_str_to_F2, immutable_args=True)
+    ctx.attach(P, 'pauli_str_to_F2', post=post_str_to_F2, immutable_args=True, normalize=True)
 
     def post_index_to_str(c):
         if c.exc is not None:
@@ -109,7 +109,7 @@ def install(ctx, numqi):
                     ctx.check(s == rp.str_of(int(i), n), 'index_to_str/value', 'pauli_index_to_str wrong (batched)',
                               {'index': int(i), 'n': n, 'got': s})
 
-    ctx.attach(P, 'pauli_index_to_str', post=post_index_to_str, immutable_args=True)
+    ctx.attach(P, 'pauli_index_to_str', post=post_index_to_str, immutable_args=True, normalize=True)
 
     def post_str_to_index(c):
         if c.exc is not None:
@@ -125,7 +125,7 @@ def install(ctx, numqi):
                 for a, b in zip(s.reshape(-1).tolist(), c.result.reshape(-1).tolist()):
                     ctx.check(int(b) == rp.index_of(a), 'str_to_index/value', 'pauli_str_to_index wrong (batched)', {'str': a, 'got': int(b)})
 
-    ctx.attach(P, 'pauli_str_to_index', post=post_str_to_index, immutable_args=True)
+    ctx.attach(P, 'pauli_str_to_index', post=post_str_to_index, immutable_args=True, normalize=True)
 
     def post_index_to_F2(c):
         if c.exc is not None:
@@ -152,7 +152,7 @@ def install(ctx, numqi):
                       'pauli_index_to_F2 disagrees with the reference (+letters of that index)',
                       {'index': i, 'n': n, 'with_sign': with_sign, 'got': row, 'expected': ref})
 
-    ctx.attach(P, 'pauli_index_to_F2', post=post_index_to_F2, immutable_args=True)
+    ctx.attach(P, 'pauli_index_to_F2', post=post_index_to_F2, immutable_args=True, normalize=True)
 
     def post_F2_to_index(c):
         if c.exc is not None:
@@ -176,7 +176,7 @@ def install(ctx, numqi):
             ctx.check(g == rp.index_of(s), 'F2_to_index/value', 'pauli_F2_to_index disagrees with the reference',
                       {'F2': row, 'got': g, 'expected': rp.index_of(s)})
 
-    ctx.attach(P, 'pauli_F2_to_index', post=post_F2_to_index, immutable_args=True)
+    ctx.attach(P, 'pauli_F2_to_index', post=post_F2_to_index, immutable_args=True, normalize=True)
 
     # ---------------- algebra
     def post_matmul(c):
